@@ -197,7 +197,10 @@ func (r *readOnlySegmentsGroup) PollHighestSegment() (object.RefCount[ReadOnlySe
 	r.allSegments.Remove(offset)
 	segment, found := r.openSegments.Get(offset)
 	if found {
-		return segment.Acquire(), nil
+		// The segment leaves the group: hand over the cache's reference, so that it
+		// is not left behind (closed) in the cache of open segments
+		r.openSegments.Remove(offset)
+		return segment, nil
 	}
 
 	roSegment, err := newReadOnlySegment(r.basePath, offset)
